@@ -1918,6 +1918,9 @@ class unyt_array(np.ndarray):
                 out_func = tuple(out_func)
             else:
                 out = out[0]
+                if out.dtype.kind in ("u", "i") and not out.flags.writeable:
+                    # refuse before the buffer is reinterpreted as floats below
+                    raise ValueError("output array is read-only")
                 if out.dtype.kind in ("u", "i"):
                     # the buffer is reinterpreted as floats below: an operand that is
                     # another view of the same memory has to be read before that
